@@ -572,6 +572,41 @@ pub unsafe extern "C" fn getrandom(buf: *mut libc::c_void, buflen: usize, flags:
 }
 
 // ---------------------------------------------------------------------------------------------
+// clock seam: inside a party, every clock the process can read is the simulated one
+// ---------------------------------------------------------------------------------------------
+
+thread_local! {
+    /// Some((base_ns, reads)) while the current thread is a simulated party
+    static PARTY_CLOCK: std::cell::Cell<Option<(u64, u64)>> = const { std::cell::Cell::new(None) };
+}
+pub static CLOCK_READS_IN_PARTIES: AtomicU64 = AtomicU64::new(0);
+
+/// Enter party time: the thread's clocks start at `base_ns` (derived from the party's keys, so two
+/// parties never agree on the time) and advance 1 microsecond per reading.
+pub fn enter_party_clock(base_ns: u64) {
+    let _ = PARTY_CLOCK.try_with(|c| c.set(Some((base_ns, 0))));
+}
+
+pub fn leave_party_clock() {
+    let _ = PARTY_CLOCK.try_with(|c| c.set(None));
+}
+
+#[no_mangle]
+pub unsafe extern "C" fn clock_gettime(clk: libc::clockid_t, ts: *mut libc::timespec) -> i32 {
+    if let Ok(Some((base, n))) = PARTY_CLOCK.try_with(|c| c.get()) {
+        let _ = PARTY_CLOCK.try_with(|c| c.set(Some((base, n + 1))));
+        CLOCK_READS_IN_PARTIES.fetch_add(1, Ordering::Relaxed);
+        if !ts.is_null() {
+            let t = base + n * 1_000;
+            (*ts).tv_sec = (t / 1_000_000_000) as libc::time_t;
+            (*ts).tv_nsec = (t % 1_000_000_000) as libc::c_long;
+        }
+        return 0;
+    }
+    libc::syscall(libc::SYS_clock_gettime, clk, ts) as i32
+}
+
+// ---------------------------------------------------------------------------------------------
 // liveness self-test: fail closed (harness error) if std stops calling the interposed symbols
 // ---------------------------------------------------------------------------------------------
 
@@ -675,6 +710,23 @@ pub fn liveness_selftest() -> Result<(), String> {
     std::fs::remove_file(sim_path("a.txt")).map_err(|e| format!("unlink seam dead: {e}"))?;
     if disk_get("/SIMDISK/a.txt").is_some() {
         return Err("unlink seam: file still there".into());
+    }
+    // 3c. clock seam: inside a party the clocks are simulated, outside they are real
+    let real0 = std::time::SystemTime::now().duration_since(std::time::UNIX_EPOCH).map(|d| d.as_secs()).unwrap_or(0);
+    enter_party_clock(1_234_567_000_000_000);
+    let sim = std::time::SystemTime::now().duration_since(std::time::UNIX_EPOCH).map(|d| d.as_secs()).unwrap_or(0);
+    let i0 = std::time::Instant::now();
+    let i1 = std::time::Instant::now();
+    leave_party_clock();
+    if sim != 1_234_567 {
+        return Err(format!("clock seam dead: SystemTime inside a party read {sim}, expected the simulated 1234567"));
+    }
+    if i1.duration_since(i0) != std::time::Duration::from_micros(1) {
+        return Err("clock seam: Instant did not advance by the simulated microsecond".into());
+    }
+    let real1 = std::time::SystemTime::now().duration_since(std::time::UNIX_EPOCH).map(|d| d.as_secs()).unwrap_or(0);
+    if real0 < 1_600_000_000 || real1 < real0 {
+        return Err("clock seam: real clock not restored outside a party".into());
     }
     // 4. non-simulated paths still reach the real kernel
     match std::fs::read("/proc/self/comm") {
